@@ -432,21 +432,28 @@ def tempId (letter : Char) (id : String) : Option Nat :=
   | '!' :: l :: rest => if l = letter then parseUsize rest else none
   | _ => none
 
-/-- looking an annotation up by a public (or temporary) identifier through the API -/
+/-- the temporary-identifier reading of a lookup string: the live slot it names -/
+def tempSlot {α} (letter : Char) (slots : List (Option α)) (id : String) : Option Nat :=
+  match tempId letter id with
+  | some n => if (getLive slots n).isSome then some n else none
+  | none => none
+
+/-- `resolve_id` + the liveness check of `get`: an item that carries the string as its public identifier comes first,
+then the temporary-identifier reading -/
 def State.lookupAnn (s : State) (id : String) : Option Nat :=
-  match tempId 'A' id with
-  | some n => if (getLive s.anns n).isSome then some n else none
-  | none => s.resolveAnn (.id id)
+  match s.resolveAnn (.id id) with
+  | some h => some h
+  | none => tempSlot 'A' s.anns id
 
 def State.lookupRes (s : State) (id : String) : Option Nat :=
-  match tempId 'R' id with
-  | some n => if (getLive s.res n).isSome then some n else none
-  | none => s.resolveRes id
+  match s.resolveRes id with
+  | some h => some h
+  | none => tempSlot 'R' s.res id
 
 def State.lookupSet (s : State) (id : String) : Option Nat :=
-  match tempId 'S' id with
-  | some n => if (getLive s.sets n).isSome then some n else none
-  | none => s.resolveSet id
+  match s.resolveSet id with
+  | some h => some h
+  | none => tempSlot 'S' s.sets id
 
 def dedupSorted (l : List Nat) : List Nat := (l.mergeSort (· ≤ ·)).eraseDups
 
